@@ -10,7 +10,7 @@
 (* Error states are leaves: no extension of the input can change the        *)
 (* outcome.                                                                 *)
 (***************************************************************************)
-EXTENDS JsonParser, CodeMapNav, TLC, Json
+EXTENDS JsonParser, JsonGrammar, CodeMapNav, TLC, Json
 
 CONSTANTS Alphabet, MaxLen, Prefix, Suffix, OptSet, DumpOn
 
@@ -69,4 +69,9 @@ ConservativeExtension ==
   LET inp == Prefix \o w \o Suffix
       s   == Run(inp, Strict) IN
   s.mode = "done" => Outcome(Final) = Outcome(s)
+
+\* C01 / C02 / C12 at design level: the automaton accepts exactly the texts the declarative RFC 8259
+\* grammar derives (under the same option record), and returns the value the text denotes
+AcceptIffGrammar == LET inp == Prefix \o w \o Suffix IN (Final.mode = "done") <=> GText(inp, o)
+ValueIsDenotation == LET inp == Prefix \o w \o Suffix IN Final.mode = "done" => Final.val = DText(inp, o)
 =============================================================================
